@@ -1283,4 +1283,80 @@ theorem parse_unique (c : Cfg) (hna : NoAmb c) (toks : List Token) (t t' : Ast) 
   obtain ⟨h', hy'⟩ := parse_sound c toks t' hp
   exact yield_injective c hna t' t h' h (hy'.trans hy.symm)
 
+
+/-! ### side condition `NoAmb`, executable; non-vacuity -/
+
+theorem mem_of_dget {α} : ∀ (d : Dict α) (k : Str) (v : α), d.get? k = some v → (k, v) ∈ d
+  | [], k, v, h => by simp [Dict.get?] at h
+  | (k', v') :: rest, k, v, h => by
+    by_cases hk : k' = k
+    · simp [Dict.get?, hk] at h; subst h; simp [hk]
+    · simp [Dict.get?, hk] at h; exact List.mem_cons_of_mem _ (mem_of_dget rest k v h)
+
+def noAmbB (c : Cfg) : Bool := c.ops.all fun e => !(decide (e.2.up < 0) && decide (e.2.bp ≠ 0))
+
+theorem noAmb_of_check (c : Cfg) (h : noAmbB c = true) : NoAmb c := by
+  intro sym o ho hc
+  have hg : c.ops.get? sym = some o := by
+    unfold Cfg.opRec at ho
+    split at ho
+    · simp at ho
+    · exact ho
+  have hm := mem_of_dget _ _ _ hg
+  simp only [noAmbB, List.all_eq_true] at h
+  have := h _ hm
+  simp [hc.1, hc.2] at this
+
+/-- a small table: `.` (group 1), prefix `-` (2), `*` (3), `+ -` (4), `not` (5), right-associative `->` (6) -/
+def demoCfg : Cfg :=
+  ⟨[(['.'], ⟨0, 1, ['A'], none⟩), (['-'], ⟨2, 4, ['M'], none⟩), (['*'], ⟨0, 3, ['T'], some ['m', 'u', 'l']⟩),
+    (['+'], ⟨0, 4, ['P'], none⟩), (['n', 'o', 't'], ⟨5, 0, ['N'], none⟩), (['-', '>'], ⟨0, -6, ['R'], none⟩)],
+   [(false, [['R']]), (true, [['N']]), (true, [['M'], ['P']]), (true, [['T']]),
+    (true, [['U', 'N', 'A', 'R', 'Y', '_', 'M']]), (true, [['L', 'I', 'S', 'T'], ['I', 'N', 'D', 'E', 'X', 'E', 'R'], ['M', 'A', 'P']]),
+    (true, [['A']]), (true, [[',']])],
+   true⟩
+
+theorem demo_noAmb : NoAmb demoCfg := noAmb_of_check _ (by decide)
+
+def n1 : Ast := .const .number (.int 1)
+def va : Ast := .getContextValue (.text ['$', 'a'])
+
+/-- `- $a * 1 + not 1 -> f(1, , $a => 1)[$a](1)` parses to the tree the table dictates ... -/
+example :
+    parse demoCfg [tOp ['-'], tok .dollar (.text ['$', 'a']), tOp ['*'], tok .number (.int 1), tOp ['+'],
+      tOp ['n', 'o', 't'], tok .number (.int 1), tOp ['-', '>'],
+      tok .func (.text ['f']), tok .number (.int 1), tLit ',', tLit ',', tok .dollar (.text ['$', 'a']),
+      tok .mapping, tok .number (.int 1), tLit ')', tok .indexer, tok .dollar (.text ['$', 'a']), tLit ']',
+      tLit '(', tok .number (.int 1), tLit ')'] =
+    .ok (.call (.binary ['-', '>'] none
+        (.binary ['+'] none (.binary ['*'] (some ['m', 'u', 'l']) (.unary ['-'] none va) n1) (.unary ['n', 'o', 't'] none n1))
+        (.index (.func (.text ['f']) [n1, .noValue, .mappingRule va n1]) [va])) [n1]) := by rfl
+
+/-- ... so the hypotheses of `parse_sound` are satisfiable by a non-trivial instance, and its conclusion
+gives a non-trivial `WF` tree - which is then a non-trivial instance of `parse_roundtrip`'s hypothesis -/
+example : ∃ t, WF demoCfg t ∧ parse demoCfg (yield demoCfg t) = .ok t ∧ (yield demoCfg t).length = 11 := by
+  have h : parse demoCfg [tOp ['-'], tok .dollar (.text ['$', 'a']), tOp ['*'], tok .number (.int 1), tOp ['+'],
+      tOp ['n', 'o', 't'], tok .number (.int 1), tOp ['-', '>'], tok .number (.int 1), tOp ['-', '>'],
+      tok .number (.int 1)] =
+      .ok (.binary ['-', '>'] none
+        (.binary ['+'] none (.binary ['*'] (some ['m', 'u', 'l']) (.unary ['-'] none va) n1) (.unary ['n', 'o', 't'] none n1))
+        (.binary ['-', '>'] none n1 n1)) := by rfl
+  obtain ⟨hw, hy⟩ := parse_sound _ _ _ h
+  exact ⟨_, hw, parse_roundtrip _ demo_noAmb _ hw, by rw [hy]; rfl⟩
+
+/-- `WF` is not trivially true: the left-nested `(1 -> 1) -> 1` without parentheses is not `WF` for a
+right-associative `->` -/
+example : ¬ WF demoCfg (.binary ['-', '>'] none (.binary ['-', '>'] none n1 n1) n1) := by
+  intro ⟨_, h⟩
+  simp only [WFn] at h
+  obtain ⟨o, ho, _, _, _, _, _, _, h1, _⟩ := h
+  have ho' : o = ⟨0, -6, ['R'], none⟩ := by
+    have : demoCfg.opRec ['-', '>'] = some ⟨0, -6, ['R'], none⟩ := by decide
+    rw [this] at ho; injection ho with ho; exact ho.symm
+  subst ho'
+  have := h1 (demoCfg.tokPrec ⟨0, -6, ['R'], none⟩) (by
+    rw [rsr_binary (o := ⟨0, -6, ['R'], none⟩) (by decide)]; exact List.mem_cons_self ..)
+  revert this
+  decide
+
 end Yaql.Props.C02
